@@ -45,7 +45,16 @@ func (r *Result) count(k string) {
 
 // full tells an engine to stop early: the tree is broken in many ways. The cap is on the total, not on the first few, so that
 // violations of one property cannot crowd out the (later) ones of another; trimViolations keeps a few per attribution class.
-func (r *Result) full() bool { return len(r.Violations) >= 60 }
+func (r *Result) full() bool {
+	concrete := 0
+	for _, v := range r.Violations {
+		if v.Kind != "correspondence" {
+			concrete++
+		}
+	}
+	// model/implementation disagreements come in floods once the code changed; they must not end the search for a concrete one
+	return concrete >= 60 || len(r.Violations) >= 1500
+}
 
 func (r *Result) trimViolations() {
 	per := map[string]int{}
@@ -116,6 +125,12 @@ func main() {
 	res.Seed = o.Seed
 	if res.Violations == nil {
 		res.Violations = []Violation{}
+	}
+	if res.Samples == nil {
+		res.Samples = []interface{}{}
+	}
+	if res.Distribution == nil {
+		res.Distribution = map[string]int{}
 	}
 	res.trimViolations()
 	buf, _ := json.MarshalIndent(res, "", " ")
